@@ -54,6 +54,9 @@ func YamlKnownFields(d *yaml.Decoder, enable bool) { yamlKnown[d] = enable }
 //verif:replace (*gopkg.in/yaml.v3.Decoder).Decode
 func YamlDecode(d *yaml.Decoder, v any) error {
 	zz.Store("yaml.known", yamlKnown[d])
+	// a type with its own UnmarshalYAML takes over the decoding of its subtree;
+	// whatever it does with the node (see NodeDecode) is part of parsing
+	zz.CallUnmarshalers(v)
 	if f, ok := zz.Load("yaml.fill").(func(any) error); ok {
 		return f(v)
 	}
@@ -76,6 +79,16 @@ func SemverNewVersion(s string) (*semver.Version, error) {
 	}
 	zz.Unsupported("semver.NewVersion without a prepared result")
 	return nil, nil
+}
+
+// A node decoded on its own (value.Decode(&x) inside a custom UnmarshalYAML)
+// uses a fresh decoder: KnownFields of the outer decoder does NOT apply, unknown
+// keys of that subtree are silently ignored.
+//
+//verif:replace (*gopkg.in/yaml.v3.Node).Decode
+func YamlNodeDecode(n *yaml.Node, v any) error {
+	zz.Store("yaml.node.decoded.nonstrictly", true)
+	return nil
 }
 
 // ---------------------------------------------------------------- goreleaser/chglog (yaml + sprig templates)
